@@ -13,7 +13,7 @@ import (
 
 func init() {
 	registerRule("visit", 12, "every sub-schema position of Schema is passed to the schema expander and the result stored back", ruleVisit)
-	registerRule("containers", 16, "every holder of refable elements is passed to the matching expander and by-value copies are written back", ruleContainers)
+	registerRule("containers", 12, "every holder of refable elements is passed to the matching expander and by-value copies are written back", ruleContainers)
 	registerRule("ref-clear", 7, "after a completed dereference every nil-error return has cleared the holder's $ref", ruleRefClear)
 	registerRule("ref-store", 6, "every $ref kept in the output is rewritten against the root frame and is control-dependent on a cycle, skip-schemas or the empty-root guard", ruleRefStore)
 }
@@ -856,6 +856,9 @@ func ruleRefClear(c *Ctx) {
 			if e, ok := n.(ast.Expr); ok && guardedClear[e] {
 				in |= cleared
 			}
+			if containsCall(n, func(call *ast.CallExpr) bool { return c.isRefClearHelper(call) }) {
+				in |= cleared
+			}
 			return in
 		}
 		g := c.cfgOf(fd)
@@ -1121,4 +1124,55 @@ func (c *Ctx) isElementParam(t types.Type) bool {
 	}
 	nt, ok := types.Unalias(derefType(t)).(*types.Named)
 	return ok && nt.Obj().Pkg() == c.Types && elementTypes[nt.Obj().Name()]
+}
+
+// isRefClearHelper: a call of a package function that does nothing to its *Ref parameter but store the zero Ref
+// through it, unconditionally or under a nil guard (`if p == nil { return }; *p = Ref{}` or `if p != nil { *p = Ref{} }`).
+func (c *Ctx) isRefClearHelper(call *ast.CallExpr) bool {
+	g, _ := c.callee(call).(*types.Func)
+	if g == nil || g.Pkg() != c.Types {
+		return false
+	}
+	gfd := c.decl(g)
+	if gfd == nil || gfd.Body == nil || len(call.Args) == 0 {
+		return false
+	}
+	var p types.Object
+	for i := range call.Args {
+		po := c.paramObj(gfd, i)
+		if po == nil {
+			continue
+		}
+		if pt, ok := types.Unalias(po.Type()).(*types.Pointer); ok && isNamed(pt.Elem(), c.Types, "Ref") {
+			p = po
+		}
+	}
+	if p == nil {
+		return false
+	}
+	clears, other := 0, false
+	ast.Inspect(gfd.Body, func(n ast.Node) bool {
+		switch x := n.(type) {
+		case *ast.AssignStmt:
+			if len(x.Lhs) == 1 && len(x.Rhs) == 1 {
+				if st, ok := unparen(x.Lhs[0]).(*ast.StarExpr); ok {
+					if id, ok := unparen(st.X).(*ast.Ident); ok && c.objOf(id) == p && c.isZeroRefLit(x.Rhs[0]) {
+						// only a nil test of p may guard it
+						for _, cl := range c.literalsAt(gfd, x) {
+							if _, isNil := nilCmp(c, cl, p); !isNil {
+								other = true
+							}
+						}
+						clears++
+						return true
+					}
+				}
+			}
+			other = true
+		case *ast.CallExpr, *ast.ForStmt, *ast.RangeStmt, *ast.GoStmt, *ast.DeferStmt:
+			other = true
+		}
+		return true
+	})
+	return clears > 0 && !other
 }
